@@ -547,8 +547,13 @@ func rflSourceFacts(repo string, b *strings.Builder) error {
 		ast.Inspect(rs.Body, func(m ast.Node) bool {
 			switch x := m.(type) {
 			case *ast.IndexExpr:
-				if rflExprText(fsr, x.X) == "vm" {
+				if t := rflExprText(fsr, x.X); t == "vm" || t == "im" {
 					lookups = append(lookups, rflExprText(fsr, x))
+				}
+			case *ast.IfStmt:
+				// the guard of the fallback closure (1029e85): which names are not offered
+				if c := rflExprText(fsr, x.Cond); strings.Contains(c, "claimed") {
+					lookups = append(lookups, "if:"+c)
 				}
 			case *ast.AssignStmt:
 				if t := rflExprText(fsr, x); t == "name[0] |= 0x20" {
@@ -560,6 +565,10 @@ func rflSourceFacts(repo string, b *strings.Builder) error {
 					if rflExprText(fsr, a) == "vm" {
 						lookups = append(lookups, "call:"+rflExprText(fsr, x.Fun))
 					}
+				}
+				// the fallback spellings go through the closure `other`: which name, in source order
+				if f := rflExprText(fsr, x.Fun); f == "other" && len(x.Args) == 1 {
+					lookups = append(lookups, "other("+rflExprText(fsr, x.Args[0])+")")
 				}
 			}
 			return true
